@@ -38,6 +38,7 @@ type config struct {
 	Name     string `json:"name"`
 	Services []svc  `json:"services"`
 	NoPanic  bool   `json:"propagate_panic"` // run with WithPropagatePanic: no panic scripts
+	Wide     bool   `json:"wide,omitempty"`  // one group with many members: explored to depth 3 from scratch only
 }
 
 func (c *config) spec(dn string) *svc {
@@ -58,6 +59,7 @@ type instance struct {
 	phase  int    // number of setup actions performed (groups run, then healthy, then done)
 	status string // setup | healthy | exited
 	how    string // how it exited
+	stuck  bool   // did not take a command although everything was quiescent: parked inside a supervisor call
 }
 
 type sys struct {
@@ -223,8 +225,9 @@ func (s *sys) Close() {
 		s.quiesce()
 		any := false
 		for _, in := range s.running() {
-			in.cmd <- "notice"
-			any = true
+			if s.tell(in, "notice") {
+				any = true
+			}
 		}
 		for _, w := range vtime.Find("sleep", "") {
 			w.Fire()
@@ -254,11 +257,28 @@ func (s *sys) running() []*instance {
 	defer s.mu.Unlock()
 	var out []*instance
 	for _, in := range s.all {
-		if in.status != "exited" {
+		if in.status != "exited" && !in.stuck {
 			out = append(out, in)
 		}
 	}
 	return out
+}
+
+// tell hands one command to a service. Everything is quiescent when it is called, so a service that is
+// waiting for a command takes it at once; one that does not is parked inside a supervisor call (RunGroup,
+// Signal) that did not return - the supervisor is wedged.
+func (s *sys) tell(in *instance, c string) bool {
+	select {
+	case in.cmd <- c:
+		return true
+	default:
+	}
+	s.mu.Lock()
+	in.stuck = true
+	s.bad = append(s.bad, "service "+in.dn+" is parked inside a supervisor call that does not return (the supervisor is wedged)")
+	s.mu.Unlock()
+	s.dead = true
+	return false
 }
 
 // current returns the newest running instance of dn (nil if none).
@@ -341,23 +361,23 @@ func (s *sys) do(a string) {
 	switch p[0] {
 	case "step":
 		in := s.current(p[1])
-		in.cmd <- nextSetup(s.cfg.spec(p[1]), in)
+		s.tell(in, nextSetup(s.cfg.spec(p[1]), in))
 	case "fail":
 		s.mu.Lock()
 		s.failedAt[p[1]] = [2]int{s.releases, s.incs[parentOf(p[1])]}
 		s.mu.Unlock()
-		s.current(p[1]).cmd <- p[2]
+		s.tell(s.current(p[1]), p[2])
 	case "notice":
 		for _, in := range s.running() {
 			if in.dn == p[1] && in.ctx.Err() != nil {
-				in.cmd <- "notice"
+				s.tell(in, "notice")
 				break
 			}
 		}
 	case "finish":
 		for _, in := range s.running() {
 			if in.dn == p[1] && in.ctx.Err() != nil && nextSetup(s.cfg.spec(p[1]), in) == "done" {
-				in.cmd <- "done"
+				s.tell(in, "done")
 				break
 			}
 		}
@@ -497,7 +517,7 @@ func closing(cfg *config) func(mc.Sys, []int) {
 			progressed := false
 			for _, in := range s.running() {
 				if in.ctx.Err() != nil {
-					in.cmd <- "notice"
+					s.tell(in, "notice")
 					s.quiesce()
 					progressed = true
 				}
@@ -521,7 +541,7 @@ func closing(cfg *config) func(mc.Sys, []int) {
 			for _, sv := range cfg.Services {
 				if in := s.current(sv.DN); in != nil && in.ctx.Err() == nil {
 					if c := nextSetup(&sv, in); c != "" {
-						in.cmd <- c
+						s.tell(in, c)
 						s.quiesce()
 						progressed = true
 					}
@@ -594,6 +614,20 @@ func configs() []config {
 	np := out[3]
 	np.Name, np.NoPanic = "root-a-b/propagate-panic", true
 	out = append(out, np)
+	// a probe service and then ONE group with many members (more than any small queue between the services
+	// and the supervisor's processor)
+	for _, width := range []int{17, 24, 40} {
+		var names []string
+		svcs := []svc{{DN: "root"}}
+		for i := 0; i < width; i++ {
+			n := fmt.Sprintf("m%02d", i)
+			names = append(names, n)
+			svcs = append(svcs, S("root."+n, false))
+		}
+		svcs[0] = S("root", false, g("probe"), names)
+		svcs = append(svcs, S("root.probe", false))
+		out = append(out, config{Name: fmt.Sprintf("root-probe|(group of %d)", width), Services: svcs, Wide: true})
+	}
 	return out
 }
 
@@ -645,10 +679,17 @@ func main() {
 		c := &cfgs[i]
 		t0 := time.Now()
 		// (a) from scratch: failures and cancellation during start-up
-		st0 := mc.BFS(func() mc.Sys { return newSys(c) }, nil, r.Pick(6, 8), r.Pick(6000, 60000), closing(c))
+		d0 := r.Pick(6, 8)
+		if c.Wide {
+			d0 = 3
+		}
+		st0 := mc.BFS(func() mc.Sys { return newSys(c) }, nil, d0, r.Pick(6000, 60000), closing(c))
 		r.Add("states", st0.States)
 		r.Add("transitions", st0.Transitions)
 		r.Add("traces_validated_against_impl", st0.Builds)
+		if c.Wide {
+			continue
+		}
 		// (b) from the non-initial state in which the whole tree is up (fair start-up prefix)
 		var prefix []int
 		{
